@@ -95,6 +95,18 @@ theorem pub_parse_some {h : Bytes → Bytes} {x : Str} {pk : HDPub} (hp : HDPub.
       simp [cmpOp, Gen.hdPubParseLenOp, Gen.hdPubParseLenT, hl]
     simp [hc] at hp
 
+theorem priv_parse_some {h : Bytes → Bytes} {x : Str} {k : HDPriv} (hp : HDPriv.parse h x = some k) :
+    ∃ raw, Base58.rawDecodeBase58 h x = some raw ∧ raw.length = 78 ∧ HDPriv.rawParse raw none = some k := by
+  simp only [HDPriv.parse, Option.bind_eq_bind, Option.bind_eq_some_iff] at hp
+  obtain ⟨raw, hraw, hp⟩ := hp
+  by_cases hl : raw.length = 78
+  · refine ⟨raw, hraw, hl, ?_⟩
+    have hc : cmpOp Gen.hdPrivParseLenOp raw.length Gen.hdPrivParseLenT = false := by rw [hl]; decide
+    simpa [hc] using hp
+  · have hc : cmpOp Gen.hdPrivParseLenOp raw.length Gen.hdPrivParseLenT = true := by
+      simp [cmpOp, Gen.hdPrivParseLenOp, Gen.hdPrivParseLenT, hl]
+    simp [hc] at hp
+
 /-- well-formedness of every key that HDPublicKey.parse returns -/
 structure ParsedPubWF (pk : HDPub) : Prop where
   depth : pk.depth ≤ 255
